@@ -588,9 +588,9 @@ theorem gen_zygo_layout (iw ih ib pw ph hdr ilen plen flen : Int) :
   · simp only [zygoIntOffset, modelIntOffset]
   · simp only [zygoIntCount]
   · simp only [zygoPhaseOffset, modelPhaseOffset]
-  · simp only [zygoPhaseOffset, zygoIntOffset, zygoIntCount] <;> ring
-  · simp only [zygoPhaseOffset, zygoExtOffset]
-  · simp only [zygoMissing, zygoPhaseOffset, zygoPhaseCount] <;> ring
+  · simp only [zygoPhaseOffset, zygoIntOffset, zygoIntCount, modelPhaseOffset, modelIntOffset] <;> ring
+  · simp only [zygoPhaseOffset, zygoExtOffset, modelPhaseOffset]
+  · simp only [zygoMissing, zygoPhaseOffset, zygoPhaseCount, modelMissing, modelPhaseOffset] <;> ring
   · simp only [zygoPhaseCount]
 
 /-- the header offsets the model reader uses for the layout fields are those of the generated table (big-endian, 2/2/2/4 bytes) -/
@@ -726,7 +726,7 @@ statement the correspondence checks on instrument-style files, here over the sou
 theorem zygo_declared_factors (n W S O : ℚ) (res : Nat) (R : Int) (h : (res, R) ∈ zygoPhaseRes) :
     Generated.C14.zygoReadValue n W S O R = Generated.C14.zygoReadValue n W 1 1 phaseRes1 * (S * O * phaseRes1 / R) := by
   have hR : (0 : ℚ) < (R : ℚ) := by exact_mod_cast phase_res_pos res R h
-  simp only [Generated.C14.zygoReadValue, phaseRes1]
+  simp only [Generated.C14.zygoReadValue, Model.C14.zygoReadValue, phaseRes1]
   push_cast
   field_simp
 
@@ -739,9 +739,9 @@ theorem zygo_quant_error_any_resolution (x W S O : ℚ) (res : Nat) (R : Int) (h
       < Generated.C14.zygoReadValue 1 W S O R := by
   have hR : (0 : ℚ) < (R : ℚ) := by exact_mod_cast phase_res_pos res R h
   have hq : 0 < Generated.C14.zygoReadValue 1 W S O R := by
-    simp only [Generated.C14.zygoReadValue]; positivity
+    simp only [Generated.C14.zygoReadValue, Model.C14.zygoReadValue]; positivity
   have e : ∀ n : ℚ, Generated.C14.zygoReadValue n W S O R = Generated.C14.zygoReadValue 1 W S O R * n := by
-    intro n; simp only [Generated.C14.zygoReadValue]; ring
+    intro n; simp only [Generated.C14.zygoReadValue, Model.C14.zygoReadValue]; ring
   rw [e]
   exact quant_error x _ hq
 
@@ -761,7 +761,7 @@ theorem zygo_requantise_exact (r32 : ℚ → ℚ) (wvl : ℚ) (n : ℤ) (hW : r3
   rw [zygo_step_consistent r32 _ wvl hW]
   have e : Generated.C14.zygoReadValue n (r32 (zygoWvlWrite wvl)) 1 1 phaseRes1
       / Generated.C14.zygoReadValue 1 (r32 (zygoWvlWrite wvl)) 1 1 phaseRes1 = (n : ℚ) := by
-    simp only [Generated.C14.zygoReadValue, phaseRes1]
+    simp only [Generated.C14.zygoReadValue, Model.C14.zygoReadValue, phaseRes1]
     push_cast
     field_simp
   rw [e, truncRat_intCast]
@@ -770,7 +770,7 @@ theorem zygo_requantise_exact (r32 : ℚ → ℚ) (wvl : ℚ) (n : ℤ) (hW : r3
 reads every count as the same nanometres as the library's `WVL 1.0` file — over the source's own scaling formula -/
 theorem codev_unit_invariant (n w ssz : ℚ) (hw : w ≠ 0) (hs : ssz ≠ 0) :
     Generated.C14.cvReadValue n w (ssz * w) = Generated.C14.cvReadValue n 1 ssz := by
-  simp only [Generated.C14.cvReadValue]
+  simp only [Generated.C14.cvReadValue, Model.C14.cvReadValue]
   field_simp
 
 example : (fun y : ℚ => y) (zygoWvlWrite (6328 / 10000)) ≠ 0 := by norm_num [zygoWvlWrite]
